@@ -145,18 +145,23 @@ pub(crate) fn eval_expr(ctx: &Context, expr: &Expr) -> Result<Value, QueryError>
                         expr.show(ctx)
                     )))
                 } else {
-                    let expr = (&expr
-                        * &ctx
-                            .lookup(scale)
-                            .expect(&*format!("Missing {} unit", scale)))
-                        .unwrap();
-                    Ok(Value::Number(
-                        (&expr
-                            + &ctx
-                                .lookup(base)
-                                .expect(&*format!("Missing {} constant", base)))
-                            .unwrap(),
-                    ))
+                    // The scales are defined by the units file, which may
+                    // lack them or define them differently.
+                    let scale_unit = ctx.lookup(scale).ok_or_else(|| {
+                        QueryError::generic(format!("Missing {} unit for °{}", scale, name))
+                    })?;
+                    let zero_point = ctx.lookup(base).ok_or_else(|| {
+                        QueryError::generic(format!("Missing {} constant for °{}", base, name))
+                    })?;
+                    (&expr * &scale_unit)
+                        .and_then(|expr| &expr + &zero_point)
+                        .map(Value::Number)
+                        .ok_or_else(|| {
+                            QueryError::generic(format!(
+                                "°{} is not usable: {} and {} do not conform",
+                                name, scale, base
+                            ))
+                        })
                 }
             }
         },
@@ -1133,20 +1138,25 @@ pub(crate) fn eval_query(ctx: &Context, expr: &Query) -> Result<QueryReply, Quer
                     )))
                 }
             };
-            let bottom = ctx
-                .lookup(scale)
-                .expect(&*format!("Unit {} missing", scale));
+            let bottom = ctx.lookup(scale).ok_or_else(|| {
+                QueryError::generic(format!("Missing {} unit for °{}", scale, name))
+            })?;
+            let zero_point = ctx.lookup(base).ok_or_else(|| {
+                QueryError::generic(format!("Missing {} constant for °{}", base, name))
+            })?;
             if top.unit != bottom.unit {
                 Err(QueryError::Conformance(Box::new(conformance_err(
                     ctx, top, &bottom,
                 ))))
             } else {
-                let res = (top
-                    - &ctx
-                        .lookup(base)
-                        .expect(&*format!("Constant {} missing", base)))
-                    .unwrap();
-                let res = (&res / &bottom).unwrap();
+                let res = (top - &zero_point)
+                    .and_then(|res| &res / &bottom)
+                    .ok_or_else(|| {
+                        QueryError::generic(format!(
+                            "°{} is not usable: {} and {} do not conform, or {} is zero",
+                            name, scale, base, scale
+                        ))
+                    })?;
                 let mut name = BTreeMap::new();
                 name.insert(deg.to_string(), 1);
                 Ok(QueryReply::Conversion(Box::new(ctx.show(
